@@ -1,6 +1,6 @@
 (* C14 — property theorems: conflicts resolve by age, then namespace/name, independent of order. *)
-From Coq Require Import List String ZArith Permutation.
-From NGF Require Import lib.Str lib.Order k8s.State k8s.Spec k8s.OrderProofs.
+From Coq Require Import List String ZArith Permutation Sorted.
+From NGF Require Import lib.Str lib.Order k8s.State k8s.Spec k8s.OrderProofs C14.MatchSort C14.MatchSortProofs.
 Import ListNotations.
 
 (* The order used everywhere (Go: LessObjectMeta / LessClientObject) is a strict total order on
@@ -31,3 +31,22 @@ Theorem C14_winning_gateway_order_independent :
   forall cs cs', c_classes cs = c_classes cs' -> Permutation (c_gateways cs) (c_gateways cs') ->
   NoDup (map gw_key (c_gateways cs)) -> winning_gateway cs = winning_gateway cs'.
 Proof. exact winning_gateway_order_independent. Qed.
+
+(* ---------------------------------------------------------------- the order in which the matches of one location are tried
+   (model of dataplane/sort.go, compared with the real sortMatchRules by TestVerifC14Sort) *)
+
+(* Whatever order the Routes were visited in (Go map iteration) - as long as the matches of each Route come in the Route's
+   own order - the stable sort leaves the same list. *)
+Theorem C14_match_order_independent_of_visit_order : forall l1 l2,
+  Permutation l1 l2 -> NoDup l1 -> route_ordered l1 -> route_ordered l2 -> sort l1 = sort l2.
+Proof. exact sort_independent_of_visit_order. Qed.
+
+(* ... namely the list ordered by method, header count, query count, Route age, Route namespace/name, position in the Route *)
+Theorem C14_match_order_is_the_priority_order : forall l, route_ordered l ->
+  StronglySorted (fun a b => before a b = true) (sort l) /\ Permutation l (sort l).
+Proof. exact sort_is_the_priority_order. Qed.
+
+(* higherPriority is a strict order: irreflexive and transitive *)
+Theorem C14_higher_priority_strict : (forall a, higher a a = false) /\
+  (forall a b c, higher a b = true -> higher b c = true -> higher a c = true).
+Proof. split; [exact higher_irrefl|exact higher_trans]. Qed.
